@@ -82,6 +82,7 @@ type checkResult struct {
 	solverTime float64
 	knownCarve int
 	skipped    int
+	eng        *Engine
 }
 
 func cmdCheck(args []string) int {
@@ -116,6 +117,7 @@ func runCheck(o *checkOpts) *checkResult {
 		return res
 	}
 	res.parseErrs = e.parseErrs
+	res.eng = e
 	var names []string
 	for _, n := range sortedKeys(e.contracts) {
 		c := e.contracts[n]
@@ -419,8 +421,48 @@ func writeEvidence(o *checkOpts, res *checkResult, kfs []*kfEntry, violations in
 		"integers":                  "mathematical Int with exact two's-complement wrap at every conversion and arithmetic instruction (64-bit int/uint)",
 	}
 	var assumptions []string
+	inRun := map[string]bool{}
+	for _, f := range funcs {
+		inRun[f] = true
+	}
+	var modular []string
 	for _, k := range sortedKeys(assumed) {
+		if strings.HasPrefix(k, "contract:") {
+			name := strings.TrimPrefix(k, "contract:")
+			c := res.eng.contracts[name]
+			switch {
+			case c != nil && c.Flags["assumed"]:
+				assumptions = append(assumptions, "assumed (never verified): contract of "+name)
+			case inRun[name]:
+				modular = append(modular, name+" (proved in this run)")
+			case c != nil:
+				modular = append(modular, name+" (proved under "+strings.Join(c.Props, ",")+")")
+			default:
+				assumptions = append(assumptions, "assumed: "+k)
+			}
+			continue
+		}
 		assumptions = append(assumptions, "assumed: "+k)
+	}
+	cov["callee_contracts_used_modularly"] = modular
+	// the domain each function is proved on
+	pre := map[string][]string{}
+	for _, f := range funcs {
+		if c := res.eng.contracts[f]; c != nil {
+			for _, r := range c.Requires {
+				pre[f] = append(pre[f], r.Name+": "+r.Src)
+			}
+			for _, r := range c.Assumes {
+				pre[f] = append(pre[f], "assume "+r.Name+": "+r.Src)
+			}
+		}
+	}
+	cov["preconditions"] = pre
+	// explicit panics the source chooses to raise are outside the no-panic claim
+	for _, f := range funcs {
+		if c := res.eng.contracts[f]; c != nil && c.Flags["maypanic"] {
+			assumptions = append(assumptions, "explicit panic(...) statements of "+f+" are not obligations (flag maypanic)")
+		}
 	}
 	for _, k := range sortedKeys(uncontr) {
 		assumptions = append(assumptions, "uncontracted callee (havocked): "+k)
